@@ -320,18 +320,18 @@ class WritePathStores:
                     continue  # the mechanism of `obj.attr = v`: the stores that matter are its call sites
                 kt = keyterm if field is None else ("const", field)
                 seen = set()
-                for persistent, prefix, fld, derived, res, pc, tgt in self._resolve(obj, kt, val, f, 0, e.pc):
-                    if not persistent or (prefix, fld, derived) in seen:
+                for persistent, prefix, fld, derived, res, pc, tgt, rv in self._resolve(obj, kt, val, f, 0, e.pc):
+                    if not persistent or (prefix, fld, derived, rv, pc) in seen:
                         continue
-                    seen.add((prefix, fld, derived))
+                    seen.add((prefix, fld, derived, rv, pc))
                     key = f"{prefix}{fld}" if fld.startswith("[") else f"{prefix}.{fld}"
-                    self.stores.append(PStore(key, fld, tgt, val, derived, pc, f, res, how, e))
+                    self.stores.append(PStore(key, fld, tgt, rv, derived, pc, f, res, how, e))
 
     def _resolve(self, obj, keyterm, val, f, depth, pc=()):
         """Resolve one store (object term, attribute-name term, value term, path condition) made in f to the persistent
         object(s) it lands in: a store through a parameter (object or attribute name) is followed to every call site of
         f, with all terms rewritten into the caller's terms.
-        -> [(persistent?, key prefix, field, derived?, how resolved, path condition, object term)]"""
+        -> [(persistent?, key prefix, field, derived?, how resolved, path condition, object term, value term)]"""
         root, _ = self._root(obj)
         needs_caller = (root[0] == "param" and root[1] not in ("self", "cls")) or \
             (keyterm is not None and keyterm[0] == "param")
@@ -355,9 +355,9 @@ class WritePathStores:
                             site_pc = ge.pc
                             break
                     pc2 = site_pc + tuple(substitute(x, amap) for x in pc)
-                    for p, pre, fld, d, res, pc3, tgt in self._resolve(o2, k2, v2, g, depth + 1, pc2):
+                    for p, pre, fld, d, res, pc3, tgt, rv in self._resolve(o2, k2, v2, g, depth + 1, pc2):
                         # provenance is judged per call site, on the value the caller actually passes
-                        out.append((p, pre, fld, d, f"passed in by {g.short}", pc3, tgt))
+                        out.append((p, pre, fld, d, f"passed in by {g.short}", pc3, tgt, rv))
             if out:
                 return out
         if keyterm is None:
@@ -366,7 +366,7 @@ class WritePathStores:
             fld = str(keyterm[1])
         else:
             fld = "<" + pp(keyterm)[:30] + ">"
-        return [(p, pre, fld, derived_here, res, pc, obj) for p, pre, res in self._classify(obj, f, depth)]
+        return [(p, pre, fld, derived_here, res, pc, obj, val) for p, pre, res in self._classify(obj, f, depth)]
 
     def _dynamic_names(self, keyterm, f, depth=0) -> set:
         if keyterm is None:
